@@ -52,6 +52,8 @@ def units(ctx):
                 yield ("quads", si, i)
     yield from hist.hist_units()
     yield ("long",)
+    for k in range(len(lib.LADDER)):
+        yield ("scale", k)
     for wi in range(len(WIDE)):
         for i in range(12):
             yield ("wide", wi, i)
@@ -80,6 +82,19 @@ def gen_cases(unit, ctx):
                 for steps in ([4], [6, 4], [8, 12], [120, 80], [3, 4]):
                     ns = lib.long_desc(n, ctx["p"] - 2, (ctx["ch"][0], ctx["ch"][1], 9), step)
                     yield {"steps": steps, "notes": [list(x) for x in ns], "events": [["ts", 0, 3, 4], ["ks", step * n // 2, "G"]]}
+        return
+    if unit[0] == "scale":
+        # scale ladder: 33 ... 1025 notes, ticks up to tens of thousands, step lists whose common period is large
+        # (5040, 143, 240), short notes that collapse by the dozen next to long ones that survive, an event at the very end
+        n = lib.LADDER[unit[1]]
+        p, (c0, c1) = ctx["p"], ctx["ch"]
+        for step, lens in ((37, (3, 4, 5, 60)), (9, (2, 2, 2, 2))):
+            ns = [list(x) for x in lib.long_desc(n, p - 2, (c0, c1, 9), step, lens=lens)]
+            end = step * n
+            tail = [[end + 10, 300, p + 9, c0, 99], [end + 400, 190, p + 9, c1, 98]]
+            for steps in ([9, 7, 5, 16], [11, 13], [120, 80], [4], [24, 12, 6, 16, 8, 4]):
+                yield {"steps": steps, "notes": ns + tail, "events": [["ts", 0, 3, 4], ["ks", end // 2, "G"], ["ks", end + 600, "D"]]}
+                yield {"steps": steps, "notes": ns + tail[:1], "events": []}
         return
     if unit[0] == "hist":
         for h in hist.hist_of_unit(unit):
@@ -254,6 +269,7 @@ def check_case(case, ctx):
             R.bad("non_positive_length", f"{n}")
     # 5 survival of isolated notes
     by_vel = {n[4]: n for n in onotes}
+    unique_vel = len({n[4] for n in notes}) == len(notes)     # the small families; the scale families repeat velocities
     for n in notes:
         o, l, pp, cc, v = n
         others = [m for m in notes if m is not n and (m[2], m[3]) == (pp, cc)]
@@ -267,7 +283,10 @@ def check_case(case, ctx):
         may_drop = any(not any(e > q for e in ends) for q in starts)
         if may_drop:
             R.flags.append("collapse_candidate")
-        got = by_vel.get(v)
+        if unique_vel:
+            got = by_vel.get(v)
+        else:
+            got = next((m for m in onotes if m[4] == v and (m[0], m[1]) == (cc, pp) and abs(m[2] - o) <= S), None)
         if got is None:
             if not may_drop:
                 R.bad("isolated_note_dropped", f"note {n} vanished; out notes {onotes}")
